@@ -39,6 +39,10 @@ DOC_OF_CLASS = {DOCS[d][0]: d for d in DOCS}
 def text_of(d, ver, parent, variant):
     """version-tagged text of document d: every declaration name embeds (d, ver)"""
     cls, _, _, ycls = DOCS[d]
+    if variant == "empty":
+        return ""
+    if variant == "blank":
+        return "\n   \n"
     L = ["class %s%s" % (cls, " (%s)" % parent if parent else ""), ""]
     if ycls != cls:
         L += ["uses %s" % ycls, ""]
@@ -93,8 +97,11 @@ REQ_KINDS = ["symbols", "diagnostic", "completion-self", "completion-y", "comple
              "definition-member", "prepare", "subtypes", "supertypes"]
 
 
-def gen_hist(rng, maxops):
+def gen_hist(rng, maxops, blanks=False):
+    """blanks: the client may also empty a document completely (the text becomes "" or white space only); such
+    histories are judged by the oracle alone (fresh server on the logical workspace), the model has no empty text"""
     h = Hist()
+    h.blanks = blanks
     ver = {}
     for d in DOCS:
         ver[d] = 1
@@ -113,6 +120,8 @@ def gen_hist(rng, maxops):
             ver[d] += 1
             parent = DOCS[d][2] if rng.chance(5, 6) else rng.choice(PARENT_CHOICES[d])
             variant = rng.choice(["plain", "plain", "plain", "extra", "broken", "twoprocs"])
+            if blanks and rng.chance(1, 3):
+                variant = rng.choice(["empty", "blank"])
             op = {"k": "change", "d": d, "text": [ver[d], parent, variant]}
             if rng.chance(1, 4):
                 # a client batching edits: one notification, several full-text events — the LAST is the document now;
@@ -397,6 +406,9 @@ def run(ctx):
     hists = [Hist.from_json(c) for c in CORPUS]
     for _ in range(n):
         hists.append(gen_hist(ctx.rng, maxops))
+    for _ in range(n // 8):
+        hists.append(gen_hist(ctx.rng, maxops, blanks=True))
+        ctx.count("histories with emptied documents (oracle only)")
     ctx.log("%d histories (%d corpus), up to %d ops" % (len(hists), len(CORPUS), maxops + 2))
     t0 = time.time()
     with concurrent.futures.ThreadPoolExecutor(max_workers=8) as ex:
@@ -434,7 +446,7 @@ def run(ctx):
                                 {"mode": "doc", "history": h.to_json(), "at": i, "model_line": line,
                                  "long_running": o["long"], "fresh": o["fresh"]})
             # model correspondence on the observable kinds
-            if op["kind"] in ("symbols", "completion-self", "completion-y"):
+            if op["kind"] in ("symbols", "completion-self", "completion-y") and not getattr(h, "blanks", False):
                 st, ln = spans[i]
                 word = mw[st + ln - 1] if st + ln - 1 < len(mw) else "?"
                 pred = sorted(core.unesc(x) for x in word.split("=", 1)[1].split(",")) if "=" in word and word.split("=", 1)[1] else []
